@@ -9,6 +9,8 @@ import (
 	"strings"
 
 	"git.defalsify.org/vise.git/resource"
+
+	"visim/app"
 )
 
 // PoDefaultLanguage is the language the default entries of an application stand for when it is
@@ -127,4 +129,55 @@ func (w *World) UsePoResource() error {
 		return rs
 	}
 	return nil
+}
+
+// SharedPoResource builds ONE gettext resource over the application's generated .po files for several
+// sessions (of several worlds) at once - templates and labels are immutable application data, which a
+// gateway loads once. Only the languages for which register says so get their catalogue loaded up front;
+// a session in another language is served the default texts. Code lookups and external functions are
+// dispatched on the session id the engine puts on the context. The caller removes dir.
+func SharedPoResource(a *app.App, sessions map[string]*Sess, register func(lg string) bool) (rs *resource.PoResource, dir string, err error) {
+	w := New(a, Cfg{})
+	if err := w.UsePoResource(); err != nil {
+		return nil, "", err
+	}
+	dir = w.scratchDirs[len(w.scratchDirs)-1]
+	w.scratchDirs = nil // the caller owns it now
+	defLang, err := langFor(PoDefaultLanguage)
+	if err != nil {
+		return nil, dir, err
+	}
+	rs = resource.NewPoResource(defLang, dir)
+	for _, lg := range a.Langs {
+		if register(lg) {
+			if l, err := langFor(lg); err == nil {
+				rs = rs.WithLanguage(l)
+			}
+		}
+	}
+	of := func(ctx context.Context) *Sess {
+		id, _ := ctx.Value("SessionId").(string)
+		return sessions[id]
+	}
+	rs.WithCodeGetter(func(ctx context.Context, sym string) ([]byte, error) {
+		s := of(ctx)
+		if s == nil {
+			return nil, fmt.Errorf("harness: code lookup without a known session on the context")
+		}
+		return s.Res.GetCode(ctx, sym)
+	})
+	for _, e := range a.Ext {
+		e := e
+		rs.AddLocalFunc(e.Name, func(ctx context.Context, nodeSym string, input []byte) (resource.Result, error) {
+			s := of(ctx)
+			if s == nil {
+				return resource.Result{}, fmt.Errorf("harness: external call without a known session on the context")
+			}
+			if s.cur != nil {
+				s.cur.Funcs++
+			}
+			return s.callExt(ctx, e, nodeSym, input)
+		})
+	}
+	return rs, dir, nil
 }
